@@ -253,6 +253,12 @@ def process_fn(repo, annot_rel, opts, mode, canary, base_variants):
                     opts['minvoke'], a.locator, k_, binds.get(k_), v_))
         opts = dict(opts)
         opts['msubst'] = ','.join('%s:%s' % kv for kv in binds.items())
+        if opts.get('mbase') and opts['mbase'] != opts['msubst']:
+            # the macro invocation itself changed (e.g. `reduce` -> `reduce2`): that is a change of the code under
+            # contract although the arm tokens are identical
+            rec.status = 'transplanted'
+            rec.changes = list(rec.changes) + ['macro invocation #%s bindings `%s` -> `%s`' % (
+                opts['minvoke'], opts['mbase'], opts['msubst'])]
         e3log.append('E3c bindings of invocation #%s read from the source: %s' % (opts['minvoke'], opts['msubst']))
     if opts.get('msubst'):
         # rule E3b: a function extracted from inside a macro_rules arm mentions metavariables (`$t`); substitute the
